@@ -2,6 +2,7 @@ import FqModel.C01Readers
 import FqModel.C01Spec
 import Proofs.C01Read64
 import Proofs.C01Ahead
+import Proofs.C01Bytes
 /-! C01 — ReadBitsAt of the bit readers returns the denoted bits (bytes / section / multi / zero). -/
 set_option linter.unusedSimpArgs false
 namespace Proofs.C01
@@ -94,7 +95,7 @@ theorem bytesToBits_sliceD (data : List UInt8) (b L : Nat) :
 theorem soundAt_mk (d : Bits) (off n k : Nat) (bits : Bits) (err : Option Err) (hk : k ≤ n)
     (hb : bits = slice d off k) (hin : off + k ≤ d.length ∨ k = 0) (heof : err = some .eof → d.length ≤ off + k)
     (hprog : err = none → 0 < n → off < d.length → 0 < k) (herr : err = none ∨ err = some .eof)
-    (hend : d.length ≤ off → 0 < n → err ≠ none) :
+    (hend : d.length ≤ off → 0 < n → err ≠ none) (hins : 0 < n → off + n ≤ d.length → err = none) :
     SoundAt d off n { n := k, bits := bits, err := err, q := 0 } := by
   have hl : bits.length = k := by
     rw [hb]; rcases hin with h | h
@@ -102,7 +103,7 @@ theorem soundAt_mk (d : Bits) (off n k : Nat) (bits : Bits) (err : Option Err) (
     · subst h; simp [slice_zero_len]
   refine ⟨by simp [hl], by simp [hl]; exact hk, by simp only [hl]; exact hb,
     by simp only [hl]; exact hin.imp id (fun h => by subst h; rw [hb]; simp [slice_zero_len]),
-    by simp only [hl]; exact heof, ?_, hend, ?_, rfl⟩
+    by simp only [hl]; exact heof, ?_, hend, hins, ?_, rfl⟩
   · intro h1 h2 h3 h4
     have := hprog h1 h2 h3
     simp only at h4
@@ -114,12 +115,13 @@ theorem soundAt_mk (d : Bits) (off n k : Nat) (bits : Bits) (err : Option Err) (
 theorem soundAt_none (d : Bits) (off n : Nat) (err : Option Err)
     (herr : (err = some .eof ∧ d.length ≤ off) ∨ (err = some .offset ∧ d.length < off)) :
     SoundAt d off n { err := err } := by
-  refine ⟨rfl, by simp, by simp [slice_zero_len], Or.inr rfl, ?_, ?_, ?_, ?_, rfl⟩
+  refine ⟨rfl, by simp, by simp [slice_zero_len], Or.inr rfl, ?_, ?_, ?_, ?_, ?_, rfl⟩
   · intro h; rcases herr with ⟨_, h2⟩ | ⟨h1, _⟩
     · simpa using h2
     · simp only at h; rw [h1] at h; cases h
   · intro h; simp only at h; rcases herr with ⟨h1, _⟩ | ⟨h1, _⟩ <;> (rw [h1] at h; cases h)
   · intro _ _; rcases herr with ⟨h1, _⟩ | ⟨h1, _⟩ <;> simp [h1]
+  · intro h1 h2; rcases herr with ⟨_, h3⟩ | ⟨_, h3⟩ <;> omega
   · rcases herr with ⟨h1, _⟩ | ⟨h1, h2⟩
     · exact Or.inr (Or.inl h1)
     · exact Or.inr (Or.inr ⟨h1, h2, rfl⟩)
@@ -148,7 +150,7 @@ theorem ioBitsFinish_spec (data : List UInt8) (b s n : Nat) (hs : s < 8) (X : Li
     · simp only [hal, and_self, if_true]
       have hs0 : s = 0 := by omega
       subst hs0
-      refine ⟨_, rfl, soundAt_mk _ _ _ _ _ _ (Nat.le_refl _) ?_ hin (by simp) (by intros; omega) (Or.inl rfl) (by intro h1 h2; rw [hbl] at h1; omega)⟩
+      refine ⟨_, rfl, soundAt_mk _ _ _ _ _ _ (Nat.le_refl _) ?_ hin (by simp) (by intros; omega) (Or.inl rfl) (by intro h1 h2; rw [hbl] at h1; omega) (fun _ _ => rfl)⟩
       rw [List.take_left' rfl, bytesToBits_sliceD, Nat.add_zero]
       have : 8 * (slice data b W).length = n := by omega
       rw [this]
@@ -157,7 +159,7 @@ theorem ioBitsFinish_spec (data : List UInt8) (b s n : Nat) (hs : s < 8) (X : Li
       rw [ioBitsExtract_spec _ _ _ (by rw [List.length_append] at hX ⊢; omega)]
       simp only [ok_bind]
       exact ⟨_, rfl, soundAt_mk _ _ _ _ _ _ (Nat.le_refl _) (in_D data b W s n X (by omega)) hin (by simp)
-        (by intros; omega) (Or.inl rfl) (by intro h1 h2; rw [hbl] at h1; omega)⟩
+        (by intros; omega) (Or.inl rfl) (by intro h1 h2; rw [hbl] at h1; omega) (fun _ _ => rfl)⟩
   · simp only [hfull, if_false]
     have hDd : (slice data b W).length = data.length - b := by rw [hDl]; rw [hDl] at hfull; omega
     by_cases h0 : (slice data b W).length = 0
@@ -175,7 +177,7 @@ theorem ioBitsFinish_spec (data : List UInt8) (b s n : Nat) (hs : s < 8) (X : Li
       · simp only [hal, and_self, if_true]
         have hs0 : s = 0 := by omega
         subst hs0
-        refine ⟨_, rfl, soundAt_mk _ _ _ _ _ _ (by omega) ?_ hin (by intro _; rw [hbl]; omega) (by intro h; cases h) (Or.inr rfl) (by simp)⟩
+        refine ⟨_, rfl, soundAt_mk _ _ _ _ _ _ (by omega) ?_ hin (by intro _; rw [hbl]; omega) (by intro h; cases h) (Or.inr rfl) (by simp) (by intro h1 h2; rw [hbl] at h2; omega)⟩
         rw [List.take_left' rfl, bytesToBits_sliceD, Nat.add_zero, Nat.sub_zero]
         exact List.take_of_length_le (by rw [slice_length _ _ _ (by rw [hbl]; omega)]; omega)
       · simp only [hal, if_false]
@@ -183,16 +185,22 @@ theorem ioBitsFinish_spec (data : List UInt8) (b s n : Nat) (hs : s < 8) (X : Li
         simp only [ok_bind]
         exact ⟨_, rfl, soundAt_mk _ _ _ _ _ _ (by omega)
           (in_D data b W s (8 * (slice data b W).length - s) X (by omega)) hin (by intro _; rw [hbl]; omega)
-          (by intro h; cases h) (Or.inr rfl) (by simp)⟩
+          (by intro h; cases h) (Or.inr rfl) (by simp) (by intro h1 h2; rw [hbl] at h2; omega)⟩
 
-/-- C01: ReadBitsAt of NewIOBitReadSeeker(bytes.NewReader(data) | file) at a non-negative offset -/
-theorem ioBits_raw_readAt (d : Nat) (data : List UInt8) (p : Nat) (f : Bool) (buf : List UInt8) (n off : Nat) :
-    ∃ p' buf' res, ioBitsReadAt (step (d + 1)) (.raw data p f) buf n (off : Int)
-        = ok ((.raw data p' f, buf'), res) ∧ SoundAt (bytesToBits data) off n res := by
+/-- C01: ReadBitsAt of NewIOBitReadSeeker over ANY io.ReadSeeker-like byte source, at a non-negative offset -/
+theorem ioBits_readAt_ok (sub : Sub) (data : List UInt8) (I : Rd → Nat → Prop) (hok : ByteOK sub data I) (b : Rd)
+    (pos : Nat) (hI : I b pos) (buf : List UInt8) (n off : Nat) :
+    ∃ b' pos' buf' res, ioBitsReadAt sub b buf n (off : Int) = ok ((b', buf'), res) ∧ I b' pos' ∧
+      SoundAt (bytesToBits data) off n res := by
   unfold ioBitsReadAt
+  simp only [tdiv8, tmod8, bbcI]
+  obtain ⟨b1, hsk, hI1⟩ := hok.2 b pos ((off / 8 : Nat) : Int) .start hI
+  simp only [seekTarget] at hsk hI1
+  rw [seekRes_nonneg _ (by omega)] at hsk
   have hneg : ¬ (((off / 8 : Nat) : Int) < 0) := by omega
-  simp only [tdiv8, tmod8, bbcI, step_raw, raw_seek, seekTarget, seekRes, ok_bind, ioReadFull_raw, hneg, if_false,
-    Option.isSome_none, Bool.false_eq_true, Int.toNat_natCast, Nat.or_self]
+  simp only [hneg, if_false, Int.toNat_natCast] at hI1
+  obtain ⟨b2, hfull, hI2⟩ := ioReadFull_gen sub data I hok.1 b1 (off / 8) (bitsByteCount (off % 8 + n)) hI1
+  simp only [hsk, ok_bind, Option.isSome_none, Bool.false_eq_true, if_false, hfull]
   generalize hB0 : (if bitsByteCount (off % 8 + n) > buf.length then List.replicate (bitsByteCount (off % 8 + n)) 0 else buf) = B0
   have hB0l : bitsByteCount (off % 8 + n) ≤ B0.length := by
     rw [← hB0]; split
@@ -208,7 +216,7 @@ theorem ioBits_raw_readAt (d : Nat) (data : List UInt8) (p : Nat) (f : Bool) (bu
   simp only [Nat.or_self]
   rw [hres]
   simp only [ok_bind, pure_eq]
-  refine ⟨_, _, _, rfl, ?_⟩
+  refine ⟨_, _, _, _, rfl, hI2, ?_⟩
   rwa [show 8 * (off / 8) + off % 8 = off by omega] at hsound
 
 /-! ### ZeroReadAtSeeker -/
@@ -232,7 +240,7 @@ theorem zero_readAt_sound (pos nb n off : Nat) :
       refine ⟨_, rfl, ?_⟩
       have := soundAt_mk (List.replicate nb false) off n (min n (nb - off)) (List.replicate (min n (nb - off)) false) none
         (by omega) (slice_replicate _ _ _ (by omega)) (Or.inl (by simp; omega)) (by intro h; cases h)
-        (by intro _ hn hl; simp at hl; omega) (Or.inl rfl) (by intro h1 _; simp at h1; omega)
+        (by intro _ hn hl; simp at hl; omega) (Or.inl rfl) (by intro h1 _; simp at h1; omega) (fun _ _ => rfl)
       simpa using this
 
 /-! ### SectionReader -/
@@ -243,11 +251,12 @@ theorem soundAt_sect (d : Bits) (base L off n n' : Nat) (res : Res) (h : SoundAt
     SoundAt (slice d base L) off n res := by
   have hlen : (slice d base L).length = L := slice_length _ _ _ hL
   have hk : res.bits.length ≤ L - off := by have := h.le; omega
-  refine ⟨h.cnt, by have := h.le; omega, ?_, Or.inl (by rw [hlen]; omega), ?_, ?_, ?_, ?_, h.noq⟩
+  refine ⟨h.cnt, by have := h.le; omega, ?_, Or.inl (by rw [hlen]; omega), ?_, ?_, ?_, ?_, ?_, h.noq⟩
   · rw [slice_slice _ _ _ _ _ (by omega)]; exact h.bits
   · intro he; have := h.eof he; rw [hlen]; omega
   · intro he hn _; exact h.prog he (by omega) (by omega)
   · intro h1 _; rw [hlen] at h1; omega
+  · intro hn hin; rw [hlen] at hin; exact h.inside (by omega) (by omega)
   · rcases h.errs with h1 | h1 | ⟨_, h2, _⟩
     · exact Or.inl h1
     · exact Or.inr (Or.inl h1)
@@ -415,7 +424,7 @@ theorem multi_readAt_sound (sub : Sub) (P : Rd → Prop) (rs : List Rd) (hall : 
         rw [← this]; exact h2.bits
       have htot := congrArg List.length hsplit
       simp only [List.length_append] at htot
-      refine ⟨h2.cnt, h2.le, hbits, ?_, ?_, ?_, (fun h1 _ => by omega), ?_, h2.noq⟩
+      refine ⟨h2.cnt, h2.le, hbits, ?_, ?_, ?_, (fun h1 _ => by omega), ?_, ?_, h2.noq⟩
       · dsimp only
         rcases hk with h | h
         · left; omega
@@ -435,6 +444,21 @@ theorem multi_readAt_sound (sub : Sub) (P : Rd → Prop) (rs : List Rd) (hall : 
           have := h2.eof hc.1
           intro hnil; rw [hnil] at this; simp at this; omega
         · exact h2.prog he hn0 (by omega)
+      · intro hn0 hin
+        dsimp only
+        split
+        · rfl
+        · rename_i hc
+          rcases h2.errs with h | h | ⟨_, h, _⟩
+          · exact h
+          · -- EOF not suppressed: the read ends at the total end, hence lies inside the sub-reader
+            simp only [h, true_and, hn] at hc
+            have hle := h2.le
+            exact h2.inside hn0 (by
+              rcases hk with hk | hk
+              · omega
+              · rw [hk] at hc; simp at hc; omega)
+          · omega
       · dsimp only
         split
         · exact Or.inl rfl
@@ -457,8 +481,8 @@ theorem den_multi (rs : List Rd) (ends : List Nat) (pos : Nat) : den (.multi rs 
 
 theorem den_zero (pos n : Nat) : den (.zero pos n) = List.replicate n false := by simp [den]
 
-theorem den_ioBits_raw (data : List UInt8) (p : Nat) (f : Bool) (bitPos : Int) (buf : List UInt8) :
-    den (.ioBits (.raw data p f) bitPos buf) = bytesToBits data := by simp [den, denBy]
+theorem den_ioBits (b : Rd) (bitPos : Int) (buf : List UInt8) :
+    den (.ioBits b bitPos buf) = bytesToBits (denBy b) := by simp [den]
 
 theorem step_ioBits_readAt (d : Nat) (b : Rd) (bitPos : Int) (buf : List UInt8) (n : Nat) (o : Int) :
     step (d + 1) (.ioBits b bitPos buf) (.readAt n o) =
@@ -537,18 +561,15 @@ theorem readAt_sound' : ∀ (d : Nat) (r : Rd), WFd d r → SubOK (step d) (WFd 
       · rw [step_zero_readAt, h1]
       · rw [den_zero]; exact h2
     | ioBits b bitPos buf =>
-      cases b with
-      | raw data p f =>
-        cases d with
-        | zero => simp [WFd] at h
-        | succ d =>
-          obtain ⟨p', buf', res, h1, h2⟩ := ioBits_raw_readAt d data p f buf n off
-          refine ⟨.ioBits (.raw data p' f) bitPos buf', res, ?_, ?_, ?_, ?_⟩
-          · rw [step_ioBits_readAt, h1]; rfl
-          · rw [den_ioBits_raw]; exact h2
-          · simp only [WFd] at h ⊢; exact h
-          · rw [den_ioBits_raw, den_ioBits_raw]
-      | _ => simp [WFd] at h
+      simp only [WFd] at h
+      obtain ⟨hbp, hwfb⟩ := h
+      obtain ⟨b', pos', buf', res, h1, ⟨e1, e2, _⟩, h2⟩ := ioBits_readAt_ok (step d) (denBy b) _ (byteOK_wf d (denBy b)) b
+        (bytePos b) ⟨hwfb, rfl, rfl⟩ buf n off
+      refine ⟨.ioBits b' bitPos buf', res, ?_, ?_, ?_, ?_⟩
+      · rw [step_ioBits_readAt, h1]; rfl
+      · rw [den_ioBits]; exact h2
+      · simp only [WFd]; exact ⟨hbp, e1⟩
+      · rw [den_ioBits, den_ioBits, e2]
     | _ => simp [WFd] at h
 
 /-! ### ReadBits: the same at the reader's own position, which then advances by the bits returned -/
@@ -597,23 +618,19 @@ theorem read_sound' : ∀ (d : Nat) (r : Rd), WFd d r → isReader r = true → 
       · rw [den_multi, den_multi, h4]
       · simp only [posOf, h2.cnt, Int.toNat_natCast]
     | ioBits b bitPos buf =>
-      cases b with
-      | raw data p f =>
-        cases d with
-        | zero => simp [WFd] at h
-        | succ d =>
-          simp only [WFd] at h
-          have hcast : bitPos = ((bitPos.toNat : Nat) : Int) := by omega
-          obtain ⟨p', buf', res, h1, h2⟩ := ioBits_raw_readAt d data p f buf n bitPos.toNat
-          refine ⟨.ioBits (.raw data p' f) (bitPos + res.n) buf', res, ?_, ?_, ?_, ?_, rfl, ?_⟩
-          · rw [step_ioBits_read]
-            conv => lhs; arg 1; arg 5; rw [hcast]
-            rw [h1]; rfl
-          · rw [den_ioBits_raw]; exact h2
-          · simp only [WFd, h2.cnt]; omega
-          · rw [den_ioBits_raw, den_ioBits_raw]
-          · simp only [posOf, h2.cnt]; omega
-      | _ => simp [WFd] at h
+      simp only [WFd] at h
+      obtain ⟨hbp, hwfb⟩ := h
+      have hcast : bitPos = ((bitPos.toNat : Nat) : Int) := by omega
+      obtain ⟨b', pos', buf', res, h1, ⟨e1, e2, _⟩, h2⟩ := ioBits_readAt_ok (step d) (denBy b) _ (byteOK_wf d (denBy b)) b
+        (bytePos b) ⟨hwfb, rfl, rfl⟩ buf n bitPos.toNat
+      refine ⟨.ioBits b' (bitPos + res.n) buf', res, ?_, ?_, ?_, ?_, rfl, ?_⟩
+      · rw [step_ioBits_read]
+        conv => lhs; arg 1; arg 5; rw [hcast]
+        rw [h1]; rfl
+      · rw [den_ioBits]; exact h2
+      · simp only [WFd, h2.cnt]; exact ⟨by omega, e1⟩
+      · rw [den_ioBits, den_ioBits, e2]
+      · simp only [posOf, h2.cnt]; omega
     | _ => simp [WFd, isReader] at h hrd
 
 /-! ### LimitReader -/
@@ -645,7 +662,7 @@ theorem limit_read_sound' (d : Nat) (r : Rd) (m : Nat) (hr : WFd d r) (hrd : isR
     refine ⟨r', res, ?_, ?_, h3, h5, h4, h6, hk⟩
     · rw [h1]; simp only [ok_bind, h2.cnt, Int.toNat_natCast]
     · have hlen : ((den r).take (posOf r + m)).length = min (posOf r + m) (den r).length := by simp
-      refine ⟨h2.cnt, by have := h2.le; split at this <;> omega, ?_, ?_, ?_, ?_, ?_, ?_, h2.noq⟩
+      refine ⟨h2.cnt, by have := h2.le; split at this <;> omega, ?_, ?_, ?_, ?_, ?_, ?_, ?_, h2.noq⟩
       · rw [slice_take _ _ _ _ (by omega)]; exact h2.bits
       · rcases h2.inb with h | h
         · left; rw [hlen]; omega
@@ -657,6 +674,11 @@ theorem limit_read_sound' (d : Nat) (r : Rd) (m : Nat) (hr : WFd d r) (hrd : isR
       · intro h1 hn
         rw [hlen] at h1
         exact h2.endErr (by omega) (by split <;> omega)
+      · intro hn hin
+        rw [hlen] at hin
+        have hnm : ¬ n > m := by omega
+        simp only [hnm, if_false] at h2
+        exact h2.inside hn (by omega)
       · rcases h2.errs with h | h | ⟨h, h', h''⟩
         · exact Or.inl h
         · exact Or.inr (Or.inl h)
@@ -666,8 +688,8 @@ theorem limit_read_sound' (d : Nat) (r : Rd) (m : Nat) (hr : WFd d r) (hrd : isR
 theorem wf_newBitReader (data : List UInt8) (nBits : Option Nat) (h : ∀ nb, nBits = some nb → nb ≤ 8 * data.length) (d : Nat) :
     WFd (d + 3) (newBitReader data nBits) := by
   unfold newBitReader newSect newIOBits
-  simp only [WFd, den_ioBits_raw, bytesToBits_length, Nat.zero_add]
-  refine ⟨by omega, by omega, by omega, ?_⟩
+  simp only [WFd, ByteWF, den_ioBits, denBy, bytesToBits_length, Nat.zero_add]
+  refine ⟨⟨by omega, trivial⟩, by omega, by omega, ?_⟩
   cases nBits with
   | none => simp; omega
   | some nb => simpa using h nb rfl
@@ -675,6 +697,6 @@ theorem wf_newBitReader (data : List UInt8) (nBits : Option Nat) (h : ∀ nb, nB
 theorem den_newBitReader (data : List UInt8) (nBits : Option Nat) :
     den (newBitReader data nBits) = (bytesToBits data).take (nBits.getD (data.length * 8)) := by
   unfold newBitReader newSect newIOBits
-  simp [den_sect, den_ioBits_raw, slice]
+  simp [den_sect, den_ioBits, denBy, slice]
 
 end Proofs.C01
